@@ -225,6 +225,10 @@ PINNED = [  # (name in Lean, file, function) - the functions whose logic Model/C
     ("LinearOperator._set_adjoint", "scico/linop/_linop.py", "LinearOperator._set_adjoint"),
     ("LinearOperator._set_gram", "scico/linop/_linop.py", "LinearOperator._set_gram"),
     ("Operator.jit", "scico/operator/_operator.py", "Operator.jit"),
+    ("MatrixOperator._eval", "scico/linop/_matrix.py", "MatrixOperator._eval"),
+    ("MatrixOperator.adj", "scico/linop/_matrix.py", "MatrixOperator.adj"),
+    ("MatrixOperator.gram", "scico/linop/_matrix.py", "MatrixOperator.gram"),
+    ("MatrixOperator.gram_op", "scico/linop/_matrix.py", "MatrixOperator.gram_op"),
 ]
 
 
